@@ -10,7 +10,10 @@ import Driver.Util
   (so: security override, rt: REQUIRETLS — no effect on the Group calls) `a.id.dd.co.mo[.note]` (note: what the next hop does — `rcptrej` RCPT refused; `rcpt421 rcpt421c rcptdrop
   rcpttmo` RCPT fails with the connection lost; `mail421 mail421c maildrop mailtmo` with mo = 0, `conndrop
   conntmo` with co = 0: the kind of failure) `x.id.how[.end]` (how = abort: Close; otherwise Body, then Close).
-cfg = `<all>/<ip>/<source>/<destination>/<reap>/<maxB>`, each scope `-` or a comma list of `s<N>` / `r<N>`. -/
+cfg = `<all>/<ip>/<source>/<destination>/<reap>/<maxB>`, each scope `-` or a comma list of `s<N>` / `r<N>`.
+Tokens `k.<addr>.<take>.<undo>.<rel>` (anywhere after cfg; `grp`, `sess`, `rem`): the key of the per-IP bucket set
+the code was observed to derive from address `<addr>` in `TakeMsg`, in its roll-back and in `ReleaseMsg`
+(`IpKeys`); addresses without a token are their own key.  The `ip` field of every op is an ADDRESS id. -/
 namespace Driver.C11
 open MaddyVerif.Limits Driver
 
@@ -34,6 +37,26 @@ def parseCfg (s : String) : Option Cfg :=
     let mb ← mb.toNat?
     pure { all := a, ip := i, src := sr, dst := d, reap := reap, maxB := mb }
   | _ => none
+
+/-- The `k.` tokens of an op line → the key functions; `none`: ill-formed token. -/
+def parseKeys (ops : List String) : Option IpKeys := do
+  let tab ← (ops.filter (fun t => t.startsWith "k.")).mapM (fun t =>
+    match ((t.splitOn ".").drop 1).mapM String.toNat? with
+    | some [a, tk, u, r] => some (a, tk, u, r)
+    | _ => none)
+  let look := fun (sel : Nat × Nat × Nat × Nat → Nat) (a : Nat) =>
+    match tab.find? (fun e => e.1 == a) with
+    | some e => sel e
+    | none => a
+  pure { take := look (fun e => e.2.1), undo := look (fun e => e.2.2.1), rel := look (fun e => e.2.2.2) }
+
+def dropKeys (ops : List String) : List String := ops.filter (fun t => !t.startsWith "k.")
+
+/-- cfg token + the `k.` tokens among the ops. -/
+def parseCfgK (cfg : String) (ops : List String) : Option Cfg := do
+  let c ← parseCfg cfg
+  let k ← parseKeys ops
+  pure { c with keys := k }
 
 def showLims (l : List LimSt) : String := ",".intercalate (l.map (fun x => toString x.len))
 
@@ -271,7 +294,7 @@ def runRem (c : Cfg) : St → List (Nat × Rem) → List String → List String 
 
 def handle : List String → String
   | "grp" :: cfg :: ops =>
-    match parseCfg cfg, ops.mapM parseGrpOp with
+    match parseCfgK cfg ops, (dropKeys ops).mapM parseGrpOp with
     | some c, some calls => " ".intercalate (runGrp c (start c) calls [])
     | _, _ => "bad-op"
   | "bs" :: cfg :: ops =>
@@ -281,16 +304,16 @@ def handle : List String → String
       " ".intercalate (runBs c' (start c') bops [])
     | _, _ => "bad-op"
   | "sess" :: cfg :: ops =>
-    match parseCfg cfg with
+    match parseCfgK cfg ops with
     | some c =>
-      match runSess c (start c) [] ops [] with
+      match runSess c (start c) [] (dropKeys ops) [] with
       | some l => " ".intercalate l
       | none => "bad-op"
     | none => "bad-op"
   | "rem" :: cfg :: ops =>
-    match parseCfg cfg with
+    match parseCfgK cfg ops with
     | some c =>
-      match runRem c (start c) [] ops [] with
+      match runRem c (start c) [] (dropKeys ops) [] with
       | some l => " ".intercalate l
       | none => "bad-op"
     | none => "bad-op"
